@@ -404,11 +404,15 @@ where
         mut self: Pin<&mut Self>,
         cx: &mut Context<'_>,
     ) -> Result<Poll<()>, DispatchError> {
+        // bound lingering by the disconnect timeout from its start: a peer that does not take
+        // the closing response either must not keep the connection for ever
+        let timer_armed = self.as_mut().ensure_linger_timer(cx);
+
         if self.as_mut().poll_flush(cx)?.is_pending() {
             return Ok(Poll::Pending);
         }
 
-        if !self.as_mut().ensure_linger_timer(cx) {
+        if !timer_armed {
             let this = self.as_mut().project();
             this.flags.remove(Flags::LINGER);
             this.flags.insert(Flags::SHUTDOWN);
